@@ -20,11 +20,21 @@ CHECKS = {
          "Every operation of every generated edit history is applied to a DenseGraph, a SparseGraph and a bit-matrix model; after each operation N, M, IsEdge (all ordered pairs), Neighbours and Degrees of every live graph (sources, copies, induced subgraphs) are compared with the models, so aliasing and stale cached counts surface at the first operation that exposes them. All histories of length <= 4 (5 thorough) from 8 small start graphs are enumerated; seeded histories reach n = 12 (40 thorough). Holds on what was observed.",
          "Trusts the harness model rg.G; argument domain: valid indices, neighbour / vertex lists without repeats.",
          "DESIGN.md section 4 C05"),
+ "C15": ("exploration",
+         "runtime monitoring: reference enumerators (exact sequence / multiset oracle), bounded drive of Next with post-exhaustion probes, instrumented predicate callbacks",
+         "Every iterator is driven for at most |expected|+3 calls on all parameters with n <= 8 (9 thorough) including k = 0, k > n, n = 0/1, zero and repeated multiplicities, empty factors; each yielded object is compared with an independent recursive reference in the documented order (or as a set where none is documented); three further Next calls must report exhaustion; predicate-driven iterators are compared with the filtered unrestricted family and every callback argument is checked. Found eight defects (all repaired). Holds on what was observed.",
+         "Trusts the recursive reference enumerators (validated against C(n,k), n!, Bell and partition numbers); 0-vs-1-object conventions that the documentation leaves open are recorded, not judged.",
+         "DESIGN.md section 4 C15"),
  "C18": ("exploration",
          "runtime monitoring: model-based lock-step oracle over union/find histories (bounded-exhaustive + seeded)",
          "Every operation of every generated history is judged against a naive partition model; all histories of length <= 4 (5 in thorough) over the full operation alphabet on n <= 4 are enumerated exhaustively, deep-tree union orders and long seeded histories up to n = 256 add path compression over chains of depth >= 3. Holds on what was observed; larger n and longer histories are only sampled.",
          "Trusts the harness model (label array, relabel on union) and that copying a disjoint.Set with append() gives an independent value.",
          "DESIGN.md section 4 C18"),
+ "C20": ("fault_enumeration",
+         "runtime monitoring with fault injection: recording / failing io.Writer at every write position x 4 failure modes, offline checker over the recorded event log, TSPLIB reference parser; strace syscall fault injection end to end (thorough)",
+         "For n = 0..12 (60 thorough) and 7 weight families the bytes received are parsed by a reader written from the TSPLIB description and compared entry by entry, the weights callback arguments are checked, and EVERY write position of the fault-free run is failed in turn (permanent, transient, short write with error; short write with nil error is recorded only): LIB must return a non-nil error. Verdicts are re-derived offline from the event log. Thorough repeats the plane on a real file with strace -e inject=write:error=ENOSPC.",
+         "Trusts the reference parser (self-checked on 23 documents) and that one Write call of the fault-free run = one fault position (text/tabwriter buffering is part of the observed behaviour).",
+         "DESIGN.md section 4 C20"),
 }
 PENDING_REASON = "monitor not built yet in this revision of /verif (work in progress; see DESIGN.md section 4 for the design)"
 
